@@ -447,9 +447,12 @@ def run(repo: Repo, rep: Report) -> None:  # noqa: F811
         if guard is not None:
             names = {n.id for n in ast.walk(guard.test) if isinstance(n, ast.Name)}
             for a in own_nodes(pf):
-                if isinstance(a, ast.Assign) and isinstance(a.targets[0], ast.Name) and a.targets[0].id in names and isinstance(a.value, ast.Call) \
-                        and isinstance(a.value.func, ast.Attribute) and norm(a.value.func.value) == "self":
-                    mname = a.value.func.attr
+                aval = a.value if isinstance(a, ast.Assign) else None
+                if isinstance(aval, ast.IfExp):  # `cells = self.<validator>(x) if <depth bound> else None`
+                    aval = aval.body if isinstance(aval.body, ast.Call) else aval.orelse
+                if isinstance(a, ast.Assign) and isinstance(a.targets[0], ast.Name) and a.targets[0].id in names and isinstance(aval, ast.Call) \
+                        and isinstance(aval.func, ast.Attribute) and norm(aval.func.value) == "self":
+                    mname = aval.func.attr
                     for q, f in rx.functions():
                         if q.startswith("PrettyXMLSerializer.") and (q.endswith("." + mname) or q.endswith("." + mname.split("__")[-1]) or q.split(".")[-1].lstrip("_") == mname.lstrip("_").replace("PrettyXMLSerializer__", "")):
                             validator = (q, f, a.targets[0].id)
@@ -560,6 +563,816 @@ def run(repo: Repo, rep: Report) -> None:  # noqa: F811
                    "the base is cut off the front of the IRI and the remainder is written as a relative reference without checking that it resolves back: with base <http://e/a/b>, <http://e/a/bc> is written <c> and read as <http://e/a/c>", node=builds[0])
     if n_rel < 2:
         raise AnalysisError("expected Serializer.relativize and RecursiveSerializer.relativize")
+
+
+# ====================================================================== rules o .. aa (pins of F142-F163)
+
+
+def _ser_modules(repo: Repo, shared: bool = True):
+    out = [repo.mod("rdflib.serializer")]
+    out += [repo.mod(m) for m in sorted(repo.modules) if m.startswith("rdflib.plugins.serializers.")]
+    if shared:
+        out.append(repo.mod("rdflib.plugins.shared.jsonld.context"))
+    return out
+
+
+def _stmt_of(mod, node: ast.AST) -> ast.AST:
+    if isinstance(node, ast.stmt):
+        return node
+    for p in mod.parents(node):
+        if isinstance(p, ast.stmt):
+            return p
+    raise AnalysisError("expression without a statement")
+
+
+def _in_test_position(mod, node: ast.AST) -> bool:
+    """the value of `node` only feeds the test of an if / while / conditional expression"""
+    child = node
+    for p in mod.parents(node):
+        if isinstance(p, (ast.If, ast.While, ast.IfExp)) and p.test is child:
+            return True
+        if isinstance(p, ast.stmt):
+            return False
+        child = p
+    return False
+
+
+def rule_o_base_cut(repo: Repo, rep: Report) -> None:
+    """(o) generalises (n) from relativize() to every place that cuts a base off the front of an IRI"""
+    from vlib.h_c03 import derives_from, facts_at, local_defs
+
+    RULE = "C03.o-base-prefix-cut-resolves-back"
+    rep.rule(RULE,
+             "wherever a serializer (or the JSON-LD context it writes with) cuts a base-derived prefix off the front of an IRI - iri[len(B):] or iri.replace(B, '', 1) with B read from a "
+             "`*base*` attribute - the remainder is used as the written form only under `resolve(remainder) == iri` (a comparison one side of which is computed by a call that takes the "
+             "remainder). A test by string prefix alone is not enough: with base <http://example.org/> the IRIs <http://example.org:8080/x>, <http://example.organic/x> and "
+             "<http://example.org//x> all begin with the base's scheme://authority, and the remainders ':8080/x', 'anic/x', '//x' read back as other IRIs", floor=2)
+    n_checked = 0
+    for mod in _ser_modules(repo):
+        for q, f in mod.functions():
+            def is_base(n):
+                return isinstance(n, ast.Attribute) and "base" in n.attr.lower()
+            cuts = []
+            for n in own_nodes(f):
+                if isinstance(n, ast.Subscript) and isinstance(n.slice, ast.Slice) and n.slice.upper is None and n.slice.step is None \
+                        and isinstance(n.slice.lower, ast.Call) and norm(n.slice.lower.func) == "len" and n.slice.lower.args \
+                        and derives_from(f, n.slice.lower.args[0], is_base):
+                    cuts.append((n, n.value))
+                elif isinstance(n, ast.Call) and isinstance(n.func, ast.Attribute) and n.func.attr == "replace" and len(n.args) >= 2 \
+                        and isinstance(n.args[1], ast.Constant) and n.args[1].value == "" and derives_from(f, n.args[0], is_base):
+                    cuts.append((n, n.func.value))
+            if not cuts:
+                continue
+            rep.analysed("%s:%s" % (mod.rel, q))
+            for cut, whole in cuts:
+                # the local the remainder is bound to, if any
+                st = _stmt_of(mod, cut)
+                tracked = None
+                if isinstance(st, ast.Assign) and st.value is cut and len(st.targets) == 1 and isinstance(st.targets[0], ast.Name):
+                    tracked = st.targets[0].id
+                uses = [cut] if tracked is None else [n for n in own_nodes(f) if isinstance(n, ast.Name) and n.id == tracked and isinstance(n.ctx, ast.Load)]
+
+                def mentions_cut(n):
+                    return n is cut or (tracked is not None and isinstance(n, ast.Name) and n.id == tracked)
+
+                def resolving_call(n):
+                    return isinstance(n, ast.Call) and norm(n.func) not in ("str", "len", "URIRef") and any(mentions_cut(x) for a in list(n.args) + [k.value for k in n.keywords] for x in ast.walk(a))
+                root = {x.id for x in ast.walk(whole) if isinstance(x, ast.Name)}
+                checks = []
+                chain_names: set[str] = set()
+                for k in own_nodes(f):
+                    if isinstance(k, ast.Compare) and len(k.ops) == 1 and isinstance(k.ops[0], (ast.Eq, ast.NotEq)):
+                        for a, b in ((k.left, k.comparators[0]), (k.comparators[0], k.left)):
+                            if derives_from(f, a, resolving_call) and (root & {x.id for x in ast.walk(b) if isinstance(x, ast.Name)} or norm(b) == norm(whole)):
+                                checks.append(k)
+                                # names on the way from the comparison back to the remainder
+                                todo = [x.id for x in ast.walk(a) if isinstance(x, ast.Name)]
+                                while todo:
+                                    nm = todo.pop()
+                                    if nm in chain_names or nm == tracked:
+                                        continue
+                                    chain_names.add(nm)
+                                    for v in local_defs(f, nm):
+                                        todo += [x.id for x in ast.walk(v) if isinstance(x, ast.Name)]
+                escapes = []
+                for u in uses:
+                    if _in_test_position(mod, u):
+                        continue
+                    if any(any(u is x for x in ast.walk(k)) for k in checks):
+                        continue
+                    ust = _stmt_of(mod, u)
+                    if isinstance(ust, ast.Assign) and len(ust.targets) == 1 and isinstance(ust.targets[0], ast.Name) and ust.targets[0].id in chain_names:
+                        continue
+                    escapes.append(u)
+                n_checked += 1
+                if not escapes:
+                    rep.ob(RULE, mod, q, cut, True, "the remainder only feeds a decision or the resolve-back comparison", node=cut)
+                    continue
+                for u in escapes:
+                    facts = facts_at(mod, f, u)
+                    ok = any(pol == isinstance(e.ops[0], ast.Eq) for e, pol in facts if any(e is k for k in checks))
+                    rep.ob(RULE, mod, q, "%s  used in  %s" % (norm(cut), norm(_stmt_of(mod, u))[:80]), ok,
+                           "only under the comparison that resolves it back" if ok else
+                           "the remainder after the base prefix is written as a relative reference without checking that it resolves back to the IRI: against base <http://example.org/> "
+                           "<http://example.org:8080/x> is written ':8080/x' and <http://example.org//x> '//x', which read back as different IRIs", node=u)
+    if n_checked < 2:
+        raise AnalysisError("base-prefix cuts of Serializer.relativize / Context.shrink_iri not found")
+
+
+def rule_p_jsonld_writer_falsy_terms(repo: Repo, rep: Report) -> None:
+    """(p) the writer-side twin of (d)"""
+    from vlib import truthy as _tr
+
+    RULE = "C03.p-jsonld-writer-keeps-falsy-terms"
+    rep.rule(RULE,
+             "in the JSON-LD serializer (Converter methods) an expression whose static type is `<term> | None` with Literal among the terms - graph.value(...), the rdf:first / rdf:rest picked "
+             "up while walking a list cell - is tested with `is None`, never by truth value: Literal(0), Literal(False) and Literal('') are falsy, so `if not first and p == RDF.first` "
+             "takes a second rdf:first of a malformed cell for the first one and the cell is folded into @list with one member dropped. Exempt: the test of a `while` whose "
+             "fall-through is `return None` (the chain is then not folded at all, nothing is lost)", floor=6)
+    jm = repo.mod("rdflib.plugins.serializers.jsonld")
+    for m, f in jm.methods("Converter").items():
+        where = "Converter." + m
+        rep.analysed("%s:%s" % (jm.rel, where))
+        for n in own_nodes(f, include_nested=True):
+            if isinstance(n, ast.Compare) and len(n.ops) == 1 and isinstance(n.ops[0], (ast.Is, ast.IsNot)) and isinstance(n.comparators[0], ast.Constant) and n.comparators[0].value is None:
+                tf = repo.typed.type_of(jm.name, n.left)
+                if tf is not None and tf.optional and _tr.domain_hits(repo, tf):
+                    rep.ob(RULE, jm, where, n, True, "None-ness of %s : %s decided by identity" % (norm(n.left), tf.text), node=n)
+        seen: set[int] = set()
+        for e, owner, kind in _tr.bool_contexts(f):
+            if id(e) in seen or isinstance(e, (ast.Compare, ast.Constant)):
+                continue
+            seen.add(id(e))
+            tf = repo.typed.type_of(jm.name, e)
+            if tf is None or not tf.optional:
+                continue
+            hits = _tr.domain_hits(repo, tf)
+            if not hits:
+                continue
+            exempt = False
+            if isinstance(owner, ast.While) and owner.test is e and not owner.orelse:
+                par = jm.parent.get(id(owner))
+                for field in ("body", "orelse", "finalbody"):
+                    lst = getattr(par, field, None)
+                    if isinstance(lst, list) and any(owner is s for s in lst):
+                        i = [k for k, s in enumerate(lst) if s is owner][0]
+                        nxt = lst[i + 1] if i + 1 < len(lst) else None
+                        if isinstance(nxt, ast.Return) and (nxt.value is None or (isinstance(nxt.value, ast.Constant) and nxt.value.value in (None, False))):
+                            exempt = True
+            ctx = norm(owner.test) if hasattr(owner, "test") else norm(owner)
+            rep.ob(RULE, jm, where, "%s [in %s: %s]" % (norm(e), kind, ctx[:100]), exempt,
+                   "loop condition; leaving the loop returns None (the chain is not folded)" if exempt else
+                   "truth value of %s : %s conflates `no value` with a falsy literal (0, false, \"\"): a value that is there is treated as missing" % (norm(e), tf.text), node=e)
+
+
+def rule_q_get_then_store(repo: Repo, rep: Report) -> None:
+    """(q) accumulate-into-a-dict pattern: v = d.get(k) ... d[k] = ...  - presence of v by identity"""
+    from vlib import truthy as _tr
+
+    RULE = "C03.q-present-value-tested-by-identity"
+    rep.rule(RULE,
+             "where a serializer reads `v = d.get(k)` (no default) from a dict it also stores into under the same key (`d[k] = ...`: the accumulate pattern that turns a second value of a "
+             "property into a list), whether a value is already there is decided with `v is None` / `is not None`, never by the truth value of v: what is stored are JSON values, and "
+             "0, false and \"\" are falsy - the second value of `:s :p 0, 1` would overwrite the first instead of joining it in a list", floor=2)
+    n = 0
+    for mod in _ser_modules(repo, shared=False):
+        for q, f in mod.functions():
+            for a in own_nodes(f):
+                if not (isinstance(a, ast.Assign) and len(a.targets) == 1 and isinstance(a.targets[0], ast.Name) and isinstance(a.value, ast.Call)
+                        and isinstance(a.value.func, ast.Attribute) and a.value.func.attr == "get"
+                        and (len(a.value.args) == 1 or (len(a.value.args) == 2 and isinstance(a.value.args[1], ast.Constant) and a.value.args[1].value is None)) and not a.value.keywords):
+                    continue
+                d, k, v = norm(a.value.func.value), norm(a.value.args[0]), a.targets[0].id
+                stores = [s for s in own_nodes(f) if isinstance(s, ast.Subscript) and isinstance(s.ctx, ast.Store) and norm(s.value) == d and norm(s.slice) == k]
+                if not stores:
+                    continue
+                rep.analysed("%s:%s" % (mod.rel, q))
+                for c in own_nodes(f):
+                    if isinstance(c, ast.Compare) and len(c.ops) == 1 and isinstance(c.ops[0], (ast.Is, ast.IsNot)) and isinstance(c.left, ast.Name) and c.left.id == v \
+                            and isinstance(c.comparators[0], ast.Constant) and c.comparators[0].value is None:
+                        n += 1
+                        rep.ob(RULE, mod, q, "%s  [%s = %s]" % (norm(c), v, norm(a.value)), True, "presence decided by identity", node=c)
+                seen_leaf: set[int] = set()
+                for e, owner, kind in _tr.bool_contexts(f, nested=False):
+                    if isinstance(e, ast.Name) and e.id == v and id(e) not in seen_leaf:
+                        seen_leaf.add(id(e))
+                        n += 1
+                        ctx = norm(owner.test) if hasattr(owner, "test") else norm(owner)
+                        rep.ob(RULE, mod, q, "%s [in %s: %s]  [%s = %s]" % (v, kind, ctx[:80], v, norm(a.value)), False,
+                               "the value already stored under the key is tested by truth value: a stored 0, false or \"\" counts as `nothing there` and is overwritten by the next value "
+                               "of the same property (`:s :p 0, 1` under an active context comes back as `:s :p 1`)", node=e)
+    if n < 2:
+        raise AnalysisError("get-then-store accumulators of Converter.add_to_node not found")
+
+
+def rule_r_folded_cell_complete(repo: Repo, rep: Report) -> None:
+    """(r) the @list walk goes past a cell only if it found both its rdf:first and its rdf:rest"""
+    from vlib.h_c03 import facts_at
+
+    RULE = "C03.r-folded-cell-has-first-and-rest"
+    rep.rule(RULE,
+             "a serializer loop that collects the rdf:first and rdf:rest of a list cell from predicate_objects(cell) and then moves its cursor on to the rest (the walk that folds a chain "
+             "into a JSON-LD @list) does so only when both were found: at the statement that advances the cursor, `<first> is None` and `<rest> is None` are known to be false. "
+             "A cell without rdf:first that is merely skipped makes `_:a rdf:rest _:b . _:b rdf:first 1 ; rdf:rest ()` come back as a one-element list with the cell _:a gone", floor=2)
+    n = 0
+    for mod in _ser_modules(repo, shared=False):
+        for q, f in mod.functions():
+            for w in own_nodes(f):
+                if not isinstance(w, ast.While):
+                    continue
+                for loop in ast.walk(w):
+                    if not (isinstance(loop, ast.For) and isinstance(loop.iter, ast.Call) and isinstance(loop.iter.func, ast.Attribute) and loop.iter.func.attr == "predicate_objects" and loop.iter.args):
+                        continue
+                    cursor = norm(loop.iter.args[0])
+                    picked: dict[str, str] = {}  # local -> 'first' / 'rest'
+                    for i in ast.walk(loop):
+                        if isinstance(i, ast.If):
+                            for role in ("first", "rest"):
+                                if any(isinstance(x, ast.Attribute) and x.attr == role and norm(x.value) == "RDF" for x in ast.walk(i.test)):
+                                    for s in i.body:
+                                        if isinstance(s, ast.Assign) and len(s.targets) == 1 and isinstance(s.targets[0], ast.Name):
+                                            picked.setdefault(s.targets[0].id, role)
+                    if set(picked.values()) != {"first", "rest"}:
+                        continue
+                    rest_names = {k for k, v in picked.items() if v == "rest"}
+                    adv = [s for s in ast.walk(w) if isinstance(s, ast.Assign) and len(s.targets) == 1 and norm(s.targets[0]) == cursor and isinstance(s.value, ast.Name) and s.value.id in rest_names]
+                    if not adv:
+                        continue
+                    rep.analysed("%s:%s" % (mod.rel, q))
+                    for s in adv:
+                        facts = facts_at(mod, f, s)
+                        for name, role in sorted(picked.items(), key=lambda kv: kv[1]):
+                            def says_present(fact):
+                                e, pol = fact
+                                if isinstance(e, ast.Compare) and len(e.ops) == 1 and isinstance(e.left, ast.Name) and e.left.id == name \
+                                        and isinstance(e.comparators[0], ast.Constant) and e.comparators[0].value is None:
+                                    return (isinstance(e.ops[0], ast.Is) and not pol) or (isinstance(e.ops[0], ast.IsNot) and pol)
+                                return False
+                            ok = any(says_present(x) for x in facts)
+                            n += 1
+                            rep.ob(RULE, mod, q, "rdf:%s of the cell is known when the walk moves on (%s)" % (role, norm(s)), ok,
+                                   "a cell without it ends the walk with `not a list`" if ok else
+                                   "the walk moves on to the next cell although this cell may have no rdf:%s: the cell is dropped from the folded @list and the link to it is lost "
+                                   "(`_:a rdf:rest _:b` with no rdf:first on _:a is written as the list that starts at _:b)" % role, node=s)
+    if n < 2:
+        raise AnalysisError("Converter.to_collection: the walk that picks rdf:first / rdf:rest from predicate_objects() was not found")
+
+
+def rule_s_type_key_only_for_iris(repo: Repo, rep: Report) -> None:
+    """(s) @type holds IRIs"""
+    from vlib.h_c03 import facts_at, params
+
+    RULE = "C03.s-jsonld-type-key-only-for-iris"
+    rep.rule(RULE,
+             "JSON-LD serializer: a Converter method selects the @type key (`<context>.type_key`) as the key under which a triple's object is written only where that object is known "
+             "to be a URIRef (`isinstance(<object parameter>, URIRef)` holds at the assignment). The values of @type are IRIs to a reader: `:s rdf:type \"x\"` written as "
+             "{\"@type\": \"x\"} under an active context comes back with the IRI <x> as its type, and a blank node type as a node reference object is not valid there", floor=1)
+    jm = repo.mod("rdflib.plugins.serializers.jsonld")
+    n = 0
+    for m, f in jm.methods("Converter").items():
+        ps = set(params(f))
+        for a in own_nodes(f):
+            if isinstance(a, ast.Assign) and isinstance(a.value, ast.Attribute) and a.value.attr == "type_key":
+                facts = facts_at(jm, f, a)
+                ok = any(pol and isinstance(e, ast.Call) and norm(e.func) == "isinstance" and len(e.args) == 2 and isinstance(e.args[0], ast.Name) and e.args[0].id in ps
+                         and norm(e.args[1]) == "URIRef" for e, pol in facts)
+                n += 1
+                rep.analysed("%s:Converter.%s" % (jm.rel, m))
+                rep.ob(RULE, jm, "Converter." + m, a, ok, "only for an IRI object" if ok else
+                       "@type is chosen as the key whatever the object is: a literal object of rdf:type is written as a bare @type string and read back as an IRI", node=a)
+    if not n:
+        raise AnalysisError("Converter: no assignment from <context>.type_key found")
+
+
+def rule_t_recursion_bounded(repo: Repo, rep: Report) -> None:
+    """(t) every call cycle among the methods of a serializer class is cut by a depth bound"""
+    from vlib.h_c03 import ClassGraph, facts_at, net_increment_before, params, short, with_implied, within_bound
+
+    RULE = "C03.t-writer-recursion-depth-bounded"
+    rep.rule(RULE,
+             "in every serializer class (methods resolved along the MRO, `self.m()` and `super().m()` calls) every cycle of calls contains a call that is made only under a depth bound: "
+             "a comparison `<counter> <= bound` that holds at the call, where the counter is a `self.<attr>` that the caller has raised by then (`self.depth += k` on the way to the call) "
+             "or a parameter that the call passes on raised (`depth + 1`); and no call inside a cycle drops the counter parameter (which restarts the count). (Calls made only for a term that "
+             "is itself a Graph - an N3 formula, not an RDF 1.1 term - are left out.) The nesting depth of "
+             "blank nodes and lists in a graph is unbounded, one level of [ ... ], ( ... ), nested element or @list per level of recursion: without the bound a chain of a few hundred "
+             "singly referenced blank nodes ends in RecursionError instead of a document", floor=5)
+    seen: set[frozenset] = set()
+    classes = sorted(c for c, d in repo.typed.classes.items() if c.startswith("rdflib.plugins.serializers."))
+    for cls in classes:
+        cg = ClassGraph(repo, cls)
+        for comp in cg.sccs():
+            key = frozenset(comp)
+            if key in seen:
+                continue
+            seen.add(key)
+            inner = [(a, c, b) for a, c, b in cg.edges if a in comp and b in comp]
+            for a in comp:
+                rep.analysed("%s:%s" % (cg.defs[a][0].rel, short(a)))
+            # counter parameters: those compared with a bound on the way to a call of the cycle, and the parameters they are passed from
+            cp: set[tuple[tuple[str, str], str]] = set()
+            facts_of = {}
+            for a, c, b in inner:
+                mod, f = cg.defs[a]
+                facts_of[id(c)] = with_implied(mod, f, facts_at(mod, f, c))
+                for p in params(f)[1:]:
+                    if any(within_bound(x, p) for x in facts_of[id(c)]):
+                        cp.add((a, p))
+
+            def arg_for(call: ast.Call, callee: tuple[str, str], pname: str):
+                ps = params(cg.defs[callee][1])[1:]
+                for k in call.keywords:
+                    if k.arg == pname:
+                        return k.value
+                if pname in ps and ps.index(pname) < len(call.args):
+                    return call.args[ps.index(pname)]
+                return None
+
+            def forwarded(e, caller_params):
+                """(param of the caller, constant added) if e is `p` or `p + k`"""
+                if isinstance(e, ast.Name) and e.id in caller_params:
+                    return e.id, 0
+                if isinstance(e, ast.BinOp) and isinstance(e.op, ast.Add) and isinstance(e.left, ast.Name) and e.left.id in caller_params \
+                        and isinstance(e.right, ast.Constant) and isinstance(e.right.value, int) and e.right.value >= 0:
+                    return e.left.id, e.right.value
+                return None
+
+            resets = []
+            changed = True
+            while changed:
+                changed = False
+                for a, c, b in inner:
+                    for (m_, p) in list(cp):
+                        if m_ != b:
+                            continue
+                        fw = forwarded(arg_for(c, b, p), params(cg.defs[a][1])[1:])
+                        if fw is None:
+                            if (a, c, b, p) not in resets:
+                                resets.append((a, c, b, p))
+                        elif (a, fw[0]) not in cp:
+                            cp.add((a, fw[0]))
+                            changed = True
+            bounded: set[int] = set()
+            for a, c, b in inner:
+                mod, f = cg.defs[a]
+                facts = facts_of[id(c)]
+                ok = False
+                for fact in facts:
+                    for x in ast.walk(fact[0]):
+                        if isinstance(x, ast.Attribute) and isinstance(x.value, ast.Name) and x.value.id == "self":
+                            t = norm(x)
+                            if within_bound(fact, t) and net_increment_before(mod, f, c, t) > 0:
+                                ok = True
+                for p in params(f)[1:]:
+                    if any(within_bound(x, p) for x in facts):
+                        for (m_, p2) in cp:
+                            if m_ == b:
+                                fw = forwarded(arg_for(c, b, p2), [p])
+                                if fw is not None and fw[1] > 0:
+                                    ok = True
+                # a call made only for a term that is itself a Graph (an N3 formula) descends into another graph: not an RDF 1.1 term, outside the property
+                if any(pol and isinstance(e, ast.Call) and norm(e.func) == "isinstance" and len(e.args) == 2 and norm(e.args[1]) in ("Graph", "QuotedGraph") for e, pol in facts):
+                    ok = True
+                if ok:
+                    bounded.add(id(c))
+            rest = [(a, c, b) for a, c, b in inner if id(c) not in bounded and not any(c is r[1] for r in resets)]  # (calls that restart the count are reported on their own)
+            bad = cg.sccs(rest)
+            where = sorted(short(a) for a in comp)[0].split(".")[0]
+            names = " / ".join(sorted(short(a) for a in comp))
+            if not bad and not resets:
+                rep.ob(RULE, cg.defs[sorted(comp)[0]][0], where, "call cycle %s" % names, True,
+                       "every cycle passes a call made under a depth bound (%d bounded call(s))" % len(bounded), node=cg.defs[sorted(comp)[0]][1])
+                continue
+            for a, c, b, p in resets:
+                mod, f = cg.defs[a]
+                rep.ob(RULE, mod, short(a), c, False,
+                       "(inside the call cycle " + names + ") this recursive call does not pass the depth counter `%s` of %s on: the count restarts below it, so the depth bound of the cycle never applies to what is nested here "
+                       "(a list whose member is a blank node that has a list whose member ... a few hundred levels deep ends in RecursionError)" % (p, short(b)), node=c)
+            for comp2 in bad:
+                edges2 = [(a, c, b) for a, c, b in rest if a in comp2 and b in comp2]
+                a0 = sorted(edges2, key=lambda e: (short(e[0]), norm(e[1])))[0]
+                mod, f = cg.defs[a0[0]]
+                rep.ob(RULE, mod, where, "unbounded call cycle %s" % " / ".join(sorted(short(a) for a in comp2)), False,
+                       "no call on this cycle is made under a depth bound (calls: %s): one level of recursion per level of nesting in the graph, RecursionError at a few hundred levels"
+                       % "; ".join(sorted("%s -> %s" % (short(a), norm(c)) for a, c, b in edges2))[:400], node=a0[1])
+    if len(seen) < 4:
+        raise AnalysisError("call cycles of the recursive serializers (turtle, n3, longturtle, pretty-xml, json-ld) not found")
+
+
+def _is_startswith_own_scheme(e: ast.AST, subject_ok, prefix_name: str) -> bool:
+    """`<subject>.startswith(<prefix_name> + ':')`"""
+    return (isinstance(e, ast.Call) and isinstance(e.func, ast.Attribute) and e.func.attr == "startswith" and subject_ok(e.func.value) and len(e.args) == 1
+            and isinstance(e.args[0], ast.BinOp) and isinstance(e.args[0].op, ast.Add) and isinstance(e.args[0].left, ast.Name) and e.args[0].left.id == prefix_name
+            and isinstance(e.args[0].right, ast.Constant) and e.args[0].right.value == ":")
+
+
+def rule_u_prefix_not_own_scheme(repo: Repo, rep: Report) -> None:
+    """(u) a JSON-LD prefix that is the scheme of its own IRI"""
+    from vlib.h_c03 import derives_from, facts_at, split_fact
+
+    RULE = "C03.u-jsonld-prefix-is-not-its-own-scheme"
+    rep.rule(RULE,
+             "a JSON-LD term `pfx` whose IRI begins with `pfx:` (\"urn\": \"urn:example:\") makes every IRI of that scheme look like a compact IRI of the prefix. "
+             "(1) Context._rec_expand, which calls itself with the expansion until nothing changes, prepends the IRI of the prefix to the local part only where "
+             "`<iri>.startswith(pfx + ':')` is known to be false - otherwise urn:example:x -> urn:example:example:x -> ... never reaches a fixed point (RecursionError while the "
+             "serializer loads its own context); (2) the context that from_rdf(auto_compact) generates from graph.namespaces() leaves such a pair out (the reader would expand "
+             "<urn:other:y> with the prefix to <urn:example:other:y>)", floor=2)
+    cm = repo.mod("rdflib.plugins.shared.jsonld.context")
+    f = cm.func("Context._rec_expand")
+    rep.analysed("%s:Context._rec_expand" % cm.rel)
+    if not any(isinstance(c, ast.Call) and norm(c.func) == "self._rec_expand" for c in own_nodes(f)):
+        rep.ob(RULE, cm, "Context._rec_expand", "no longer calls itself", True, "nothing to bound", node=f)
+    else:
+        steps = []
+        for a in own_nodes(f):
+            if isinstance(a, ast.Assign) and isinstance(a.value, ast.BinOp) and isinstance(a.value.op, ast.Add) and isinstance(a.value.left, ast.Name):
+                left = a.value.left
+                if derives_from(f, left, lambda n: isinstance(n, ast.Call) and isinstance(n.func, ast.Attribute) and n.func.attr == "_get_source_id"):
+                    steps.append((a, left.id))
+        if not steps:
+            raise AnalysisError("Context._rec_expand: the step that prepends the prefix's IRI was not found")
+        # the local that holds the prefix: first element of the tuple unpacked from self._prep_expand(...)
+        for a, iri in steps:
+            facts = facts_at(cm, f, a)
+            ok = False
+            for e, pol in facts:
+                if not pol and isinstance(e, ast.Call) and isinstance(e.func, ast.Attribute) and e.func.attr == "startswith" and isinstance(e.func.value, ast.Name) and e.func.value.id == iri \
+                        and len(e.args) == 1 and isinstance(e.args[0], ast.BinOp) and isinstance(e.args[0].right, ast.Constant) and e.args[0].right.value == ":":
+                    ok = True
+            rep.ob(RULE, cm, "Context._rec_expand", a, ok, "not for a prefix that is the scheme of its own IRI" if ok else
+                   "the IRI of the prefix is prepended even when it begins with `<prefix>:` itself: {\"urn\": \"urn:example:\"} expands urn:example:x with the prefix again and again "
+                   "(RecursionError; the JSON-LD serializer fails on any graph that binds such a prefix)", node=a)
+    jm = repo.mod("rdflib.plugins.serializers.jsonld")
+    n = 0
+    for q, fn in jm.functions():
+        for c in own_nodes(fn):
+            if not isinstance(c, (ast.GeneratorExp, ast.ListComp, ast.DictComp, ast.SetComp)):
+                continue
+            for g in c.generators:
+                if isinstance(g.iter, ast.Call) and isinstance(g.iter.func, ast.Attribute) and g.iter.func.attr == "namespaces" and isinstance(g.target, ast.Tuple) and len(g.target.elts) == 2 \
+                        and all(isinstance(x, ast.Name) for x in g.target.elts):
+                    pfx, ns = g.target.elts[0].id, g.target.elts[1].id  # type: ignore[attr-defined]
+                    facts = [x for t in g.ifs for x in split_fact(t, True)]
+                    ok = any(not pol and _is_startswith_own_scheme(e, lambda s: ns in {y.id for y in ast.walk(s) if isinstance(y, ast.Name)}, pfx) for e, pol in facts)
+                    n += 1
+                    rep.analysed("%s:%s" % (jm.rel, q))
+                    rep.ob(RULE, jm, q, "context generated from %s" % norm(g.iter), ok, "a prefix that is the scheme of its namespace is left out" if ok else
+                           "every bound (prefix, namespace) pair becomes a term of the generated context, also one like urn -> <urn:example:>: loading that context does not end "
+                           "(or, read back, other urn: IRIs are expanded with it)", node=c)
+    if not n:
+        raise AnalysisError("serializers/jsonld.py: the context generated from graph.namespaces() was not found")
+
+
+def rule_v_typed_node_element_name(repo: Repo, rep: Report) -> None:
+    """(v) pretty-xml: which rdf:type values may name the node element"""
+    from vlib.h_c03 import derives_from, local_defs
+
+    RULE = "C03.v-prettyxml-typed-node-element-name"
+    rep.rule(RULE,
+             "PrettyXMLSerializer: a value read from the graph as an rdf:type object reaches `writer.push(...)` as the name of the node element only after a validator method of the class "
+             "has been asked and the value reset when it says no; the validator answers False (1) unless the value is a URIRef (a literal or blank node type has no element name), "
+             "(2) for the names the RDF/XML reader refuses as node elements - membership in the reader's own NODE_ELEMENT_EXCEPTIONS table (rdf:li, rdf:ID, rdf:about ...: unparseable "
+             "output) - and for rdf:Description (which says nothing: the type triple is lost), (3) when the namespace manager cannot split the IRI (ValueError caught). "
+             "Otherwise rdf:type is written as a property", floor=4)
+    rx = repo.mod("rdflib.plugins.serializers.rdfxml")
+    sf = rx.func("PrettyXMLSerializer.subject")
+    rep.analysed("%s:PrettyXMLSerializer.subject" % rx.rel)
+
+    def type_read(n):
+        return isinstance(n, ast.Call) and isinstance(n.func, ast.Attribute) and n.func.attr in ("objects", "value", "triples") \
+            and any(isinstance(x, ast.Attribute) and x.attr == "type" and norm(x.value) == "RDF" for x in ast.walk(n))
+    pushes = [c for c in own_nodes(sf) if isinstance(c, ast.Call) and isinstance(c.func, ast.Attribute) and c.func.attr == "push" and c.args and derives_from(sf, c.args[0], type_read)]
+    if not pushes:
+        rep.ob(RULE, rx, "PrettyXMLSerializer.subject", "no typed node elements", True, "rdf:type is always written as a property", node=sf)
+        return
+    # the local(s) bound from the rdf:type read
+    tnames = set()
+    for a in own_nodes(sf):
+        if isinstance(a, ast.Assign) and len(a.targets) == 1 and isinstance(a.targets[0], ast.Name) and any(type_read(x) for x in ast.walk(a.value)):
+            tnames.add(a.targets[0].id)
+    validator = None
+    for i in own_nodes(sf):
+        if isinstance(i, ast.If) and isinstance(i.test, ast.UnaryOp) and isinstance(i.test.op, ast.Not) and isinstance(i.test.operand, ast.Call):
+            c = i.test.operand
+            if isinstance(c.func, ast.Attribute) and norm(c.func.value) == "self" and len(c.args) == 1 and isinstance(c.args[0], ast.Name) and c.args[0].id in tnames \
+                    and any(isinstance(s, ast.Assign) and norm(s.targets[0]) == c.args[0].id and isinstance(s.value, ast.Constant) and s.value.value is None for s in i.body) \
+                    and all(i.lineno < p.lineno for p in pushes):
+                validator = c.func.attr
+    ok = validator is not None
+    rep.ob(RULE, rx, "PrettyXMLSerializer.subject", "%s : the rdf:type value is validated first" % norm(pushes[0]), ok,
+           "reset to None when self.%s says no" % validator if ok else
+           "the rdf:type value is used as the element name without a validator (at most `nm.qname()` not raising): <rdf:Description> as a type loses the triple, rdf:li / rdf:ID / rdf:about "
+           "give output the reader rejects, a literal or blank node type raises", node=pushes[0])
+    if not ok:
+        return
+    vq = "PrettyXMLSerializer." + validator
+    if not rx.has(vq):
+        raise AnalysisError("validator %s not found" % vq)
+    vf = rx.func(vq)
+    rep.analysed("%s:%s" % (rx.rel, vq))
+    p = vf.args.args[1].arg
+    false_ifs = [i for i in own_nodes(vf) if isinstance(i, ast.If) and any(isinstance(r, ast.Return) and isinstance(r.value, ast.Constant) and r.value.value is False for r in i.body)]
+    c1 = any(norm(i.test).replace(" ", "") == "notisinstance(%s,URIRef)" % p for i in false_ifs)
+    # the exclusion table is the reader's
+    imported = any(isinstance(s, ast.ImportFrom) and s.module == "rdflib.plugins.parsers.rdfxml" and any(a.name == "NODE_ELEMENT_EXCEPTIONS" and a.asname is None for a in s.names) for s in rx.tree.body)
+    c2 = imported and any(any(isinstance(x, ast.Compare) and isinstance(x.ops[0], ast.In) and norm(x.left) == p and norm(x.comparators[0]) == "NODE_ELEMENT_EXCEPTIONS" for x in ast.walk(i.test)) for i in false_ifs)
+    c2b = any(any(isinstance(x, ast.Compare) and isinstance(x.ops[0], ast.Eq) and p in (norm(x.left), norm(x.comparators[0])) and "Description" in norm(x) for x in ast.walk(i.test)) for i in false_ifs)
+    c3 = any(isinstance(t, ast.Try) and any(isinstance(c, ast.Call) and isinstance(c.func, ast.Attribute) and c.func.attr.startswith("compute_qname") for s in t.body for c in ast.walk(s))
+             and any(any(isinstance(r, ast.Return) and isinstance(r.value, ast.Constant) and r.value.value is False for r in h.body) for h in t.handlers) for t in own_nodes(vf))
+    for okk, what, why in ((c1, "False unless a URIRef", "a literal or blank node object of rdf:type is taken for an element name (exception, or written as an IRI)"),
+                           (c2 and c2b, "False for the reader's NODE_ELEMENT_EXCEPTIONS and rdf:Description", "a node typed rdf:li / rdf:ID / ... is written as an element the RDF/XML reader rejects; rdf:Description as a type is lost"),
+                           (c3, "False when the IRI has no XML qname", "an rdf:type IRI that cannot be split (<http://e/1>) makes push() fail instead of being written as an rdf:type property")):
+        rep.ob(RULE, rx, vq, what, okk, "tested" if okk else why, node=vf)
+
+
+def rule_w_no_prefix_after_header(repo: Repo, rep: Report) -> None:
+    """(w) Turtle family: nothing is added to the prefix table after it was written"""
+    from vlib.h_c03 import facts_at
+
+    RULE = "C03.w-no-new-prefix-after-the-header"
+    rep.rule(RULE,
+             "Turtle-family serializers write the @prefix block once (startDocument, which raises the flag it sets to True there). A method that registers a prefix "
+             "(self.addNamespace(...)) and returns the prefixed name built from it does so only after `if <flag> and <the prefix is not in self.namespaces with this namespace>: return None`: "
+             "a prefix first met while the triples are being written (e.g. for a predicate whose qname was refused in the preprocessing pass because its local name ends in '.', and "
+             "whose object's datatype or a later use binds a generated prefix) would be used without a declaration and the document does not parse", floor=2)
+    n = 0
+    for modname in ("rdflib.plugins.serializers.turtle", "rdflib.plugins.serializers.longturtle", "rdflib.plugins.serializers.n3", "rdflib.plugins.serializers.trig"):
+        mod = repo.mod(modname)
+        for cname, cdef in [(q, d) for q, d in mod.defs.items() if isinstance(d, ast.ClassDef)]:
+            meths = mod.methods(cname)
+            if "startDocument" not in meths:
+                continue
+            flags = [norm(a.targets[0]) for a in own_nodes(meths["startDocument"]) if isinstance(a, ast.Assign) and isinstance(a.value, ast.Constant) and a.value.value is True
+                     and isinstance(a.targets[0], ast.Attribute) and norm(a.targets[0].value) == "self"]
+            for m, f in meths.items():
+                regs = [c for c in own_nodes(f) if isinstance(c, ast.Call) and norm(c.func) == "self.addNamespace"]
+                returns_pname = any(isinstance(r, ast.Return) and r.value is not None and any(isinstance(x, ast.Constant) and isinstance(x.value, str) and ":" in x.value for x in ast.walk(r.value)) for r in own_nodes(f))
+                if not regs or not returns_pname:
+                    continue
+                rep.analysed("%s:%s.%s" % (mod.rel, cname, m))
+                for c in regs:
+                    facts = facts_at(mod, f, c)
+                    ok = False
+                    for e, pol in facts:
+                        if not pol and isinstance(e, ast.BoolOp) and isinstance(e.op, ast.And) and any(norm(v) in flags for v in e.values) \
+                                and any(isinstance(v, ast.Compare) and isinstance(v.ops[0], ast.NotEq) and "self.namespaces" in norm(v) for v in e.values):
+                            ok = True
+                        if pol and isinstance(e, ast.UnaryOp) and isinstance(e.op, ast.Not) and norm(e.operand) in flags:
+                            ok = True
+                    n += 1
+                    rep.ob(RULE, mod, "%s.%s" % (cname, m), c, ok, "not once the header is written, unless the prefix is in it" if ok else
+                           "a prefix can be registered and used in a prefixed name after the @prefix block was written (flag %s is not consulted): the name is written with an undeclared prefix" % (flags or ["<none>"])[0], node=c)
+    if n < 2:
+        raise AnalysisError("getQName of TurtleSerializer / LongTurtleSerializer not found")
+
+
+def rule_x_registration_agrees_with_label(repo: Repo, rep: Report) -> None:
+    """(x) preprocessTriple skips the registration of a predicate only where label() does not write a prefixed name"""
+    from vlib.h_c03 import facts_at
+
+    RULE = "C03.x-prefix-registration-agrees-with-label"
+    rep.rule(RULE,
+             "Turtle-family preprocessTriple registers the prefixes the document will use by calling self.getQName(node) for every node; label(), which later writes the node, takes the "
+             "keyword table (`node in self.keywords`), else self.relativize(node), else getQName. A `continue` that skips the registration is therefore taken only under a test label() "
+             "shares: membership in self.keywords, or a comparison of self.relativize(node) with the node. A home-made test on self.base (startswith, no '#' or '/' in the rest) "
+             "skipped <http://e/a/bc> under base <http://e/a/b>, which relativize() refuses to write as <c>: label() then wrote ns1:bc with ns1 never declared", floor=4)
+    n = 0
+    for modname in ("rdflib.plugins.serializers.turtle", "rdflib.plugins.serializers.longturtle", "rdflib.plugins.serializers.n3", "rdflib.plugins.serializers.trig"):
+        mod = repo.mod(modname)
+        for q, f in mod.functions():
+            if q.split(".")[-1] != "preprocessTriple":
+                continue
+            for loop in own_nodes(f):
+                if not isinstance(loop, ast.For):
+                    continue
+                regs = [c for c in ast.walk(loop) if isinstance(c, ast.Call) and norm(c.func) == "self.getQName"]
+                if not regs:
+                    continue
+                rep.analysed("%s:%s" % (mod.rel, q))
+                for cont in ast.walk(loop):
+                    if not isinstance(cont, ast.Continue):
+                        continue
+                    # innermost guard of this `continue`
+                    guard = None
+                    child: ast.AST = cont
+                    for p_ in mod.parents(cont):
+                        if isinstance(p_, ast.If) and any(child is s for s in p_.body):
+                            guard = p_
+                            break
+                        if p_ is loop:
+                            break
+                        child = p_
+                    if guard is None:
+                        continue
+                    t = guard.test
+                    shared = False
+                    if isinstance(t, ast.Compare) and isinstance(t.ops[0], ast.In) and norm(t.comparators[0]) == "self.keywords":
+                        shared = True
+                    for e in ([t] + (list(t.values) if isinstance(t, ast.BoolOp) and isinstance(t.op, ast.And) else [])):
+                        if isinstance(e, ast.Compare) and isinstance(e.ops[0], ast.NotEq) and any(isinstance(s, ast.Call) and norm(s.func) == "self.relativize" for s in (e.left, e.comparators[0])):
+                            shared = True
+                    reads_base = any(isinstance(x, ast.Attribute) and x.attr == "base" and norm(x.value) == "self" for x in ast.walk(t))
+                    ok = shared and not reads_base
+                    n += 1
+                    rep.ob(RULE, mod, q, "skip registration if %s" % norm(t)[:120], ok, "a test label() shares" if ok else
+                           "the registration of the predicate's prefix is skipped under a test of its own (%s) that label() does not use: where the two disagree the predicate is written "
+                           "as a prefixed name whose prefix was never declared (<http://e/a/bc> with base <http://e/a/b>)" % ("reads self.base" if reads_base else "neither keywords nor relativize()"), node=guard)
+    if n < 4:
+        raise AnalysisError("preprocessTriple of TurtleSerializer / LongTurtleSerializer: the registration loop was not found")
+
+
+def rule_y_n3_keyword_not_first_in_brackets(repo: Repo, rep: Report) -> None:
+    """(y) N3: [ = x ] and [ => x ] are not property lists"""
+    RULE = "C03.y-n3-keyword-verbs-not-first-in-brackets"
+    rep.rule(RULE,
+             "a Turtle-family serializer class that adds verb keywords other than `a` to self.keywords - N3Serializer: owl:sameAs -> '=', log:implies -> '=>' - overrides p_squared "
+             "(which writes a blank node inline as [ verb object ; ... ]) so that it answers False, before delegating to the inherited p_squared, for a node whose first sorted "
+             "property is one of those predicates: every key of the added table is in the membership test. `[ = :x ]` names the node :x for the N3 reader (the node's own triples move "
+             "to :x) and `[ => :x ]` does not parse", floor=2)
+    n = 0
+    for modname in sorted(m for m in repo.modules if m.startswith("rdflib.plugins.serializers.")):
+        mod = repo.mod(modname)
+        for cname, cdef in [(q, d) for q, d in mod.defs.items() if isinstance(d, ast.ClassDef)]:
+            added = []
+            for m, f in mod.methods(cname).items():
+                for c in own_nodes(f):
+                    if isinstance(c, ast.Call) and norm(c.func) == "self.keywords.update" and c.args and isinstance(c.args[0], ast.Dict):
+                        for k, v in zip(c.args[0].keys, c.args[0].values):
+                            if isinstance(v, ast.Constant) and v.value != "a":
+                                added.append((norm(k), v.value))
+            if not added:
+                continue
+            meths = mod.methods(cname)
+            rep.analysed("%s:%s.p_squared" % (mod.rel, cname))
+            ps = meths.get("p_squared")
+            for key, tok in added:
+                ok = False
+                if ps is not None:
+                    supers = [c for c in own_nodes(ps) if isinstance(c, ast.Call) and isinstance(c.func, ast.Attribute) and c.func.attr == "p_squared" and isinstance(c.func.value, ast.Call) and norm(c.func.value.func) == "super"]
+                    for i in own_nodes(ps):
+                        if isinstance(i, ast.If) and any(isinstance(r, ast.Return) and isinstance(r.value, ast.Constant) and r.value.value is False for r in i.body) \
+                                and all(i.lineno < s.lineno for s in supers):
+                            for x in ast.walk(i.test):
+                                if isinstance(x, ast.Compare) and isinstance(x.ops[0], ast.In) and isinstance(x.comparators[0], (ast.Tuple, ast.List, ast.Set)) \
+                                        and key in [norm(e) for e in x.comparators[0].elts] and isinstance(x.left, ast.Subscript) and norm(x.left.slice) == "0":
+                                    ok = True
+                n += 1
+                rep.ob(RULE, mod, cname + ".p_squared", "a node whose first property is %s (written `%s`) is not written inline" % (key, tok), ok,
+                       "p_squared answers False for it" if ok else
+                       "%s inherits / defines a p_squared that inlines such a node: `:s :p [ %s :x ]` - for the N3 reader `[ = :x ]` is the node :x itself, `[ => :x ]` a syntax error" % (cname, tok), node=ps or cdef)
+    if n < 2:
+        raise AnalysisError("N3Serializer: keywords.update({...: '=', ...: '=>'}) not found")
+
+
+def _asserts_absent(fact, marker: str, subject_text: str) -> bool:
+    """the fact says `marker` does not occur in <subject>"""
+    e, pol = fact
+    if isinstance(e, ast.Compare) and len(e.ops) == 1 and isinstance(e.left, ast.Constant) and e.left.value == marker and norm(e.comparators[0]) in (subject_text, "str(%s)" % subject_text):
+        return (isinstance(e.ops[0], ast.In) and not pol) or (isinstance(e.ops[0], ast.NotIn) and pol)
+    if isinstance(e, ast.Call) and isinstance(e.func, ast.Name) and e.func.id in ("any", "all") and len(e.args) == 1 and isinstance(e.args[0], ast.GeneratorExp) and len(e.args[0].generators) == 1:
+        g = e.args[0].generators[0]
+        if g.ifs or not isinstance(g.target, ast.Name) or not isinstance(g.iter, (ast.Tuple, ast.List, ast.Set)):
+            return False
+        if marker not in [x.value for x in g.iter.elts if isinstance(x, ast.Constant)]:
+            return False
+        elt = e.args[0].elt
+        if isinstance(elt, ast.Compare) and len(elt.ops) == 1 and isinstance(elt.left, ast.Name) and elt.left.id == g.target.id and norm(elt.comparators[0]) in (subject_text, "str(%s)" % subject_text):
+            if e.func.id == "any" and not pol:
+                return isinstance(elt.ops[0], ast.In)
+            if e.func.id == "all" and pol:
+                return isinstance(elt.ops[0], ast.NotIn)
+    return False
+
+
+def rule_z_parsetype_literal_agrees_with_reader(repo: Repo, rep: Report) -> None:
+    """(z) what is written raw under parseType="Literal" is what the reader rebuilds"""
+    from vlib.h_c03 import facts_at
+
+    RULE = "C03.z-parsetype-literal-only-what-the-reader-rebuilds"
+    rep.rule(RULE,
+             "pretty-xml writes the lexical form of an rdf:XMLLiteral raw (`writer.stream.write(<the literal>)` after parseType=\"Literal\") only for content the RDF/XML reader passes on: "
+             "the reader (RDFXMLHandler) rebuilds the literal from startElementNS / characters / endElementNS events. Its processingInstruction handler does nothing, so the raw write "
+             "is guarded by `'<?' not in literal`; create_parser installs no lexical handler (no setProperty(property_lexical_handler)), so comments and CDATA section marks never "
+             "reach it and the guard also excludes '<!--' and '<![CDATA['. Such literals are written as escaped text with rdf:datatype instead: "
+             "Literal('<a><!--c--></a>', datatype=rdf:XMLLiteral) came back as '<a></a>'", floor=3)
+    rp = repo.mod("rdflib.plugins.parsers.rdfxml")
+    hm = rp.methods("RDFXMLHandler")
+    need = []
+    pi = hm.get("processingInstruction")
+    if pi is None or all(isinstance(s, ast.Pass) or (isinstance(s, ast.Expr) and isinstance(s.value, ast.Constant)) for s in pi.body):
+        need.append(("<?", "the reader's processingInstruction() drops processing instructions"))
+    cp = rp.func("create_parser")
+    lexical = any(isinstance(c, ast.Call) and isinstance(c.func, ast.Attribute) and c.func.attr == "setProperty" and any("lexical" in norm(a) for a in c.args) for c in own_nodes(cp))
+    if not lexical:
+        need.append(("<!--", "the reader installs no lexical handler: comments are not reported"))
+        need.append(("<![CDATA[", "the reader installs no lexical handler: CDATA section marks are not reported"))
+    rx = repo.mod("rdflib.plugins.serializers.rdfxml")
+    n = 0
+    for q, f in rx.functions():
+        ps = [a.arg for a in f.args.args]
+        raws = [c for c in own_nodes(f) if isinstance(c, ast.Call) and isinstance(c.func, ast.Attribute) and c.func.attr == "write" and norm(c.func.value).endswith("stream")
+                and len(c.args) == 1 and isinstance(c.args[0], ast.Name) and c.args[0].id in ps]
+        for c in raws:
+            subj = c.args[0].id  # type: ignore[attr-defined]
+            facts = facts_at(rx, f, c)
+            if not any(pol and "XMLLiteral" in norm(e) for e, pol in facts):
+                continue
+            rep.analysed("%s:%s" % (rx.rel, q))
+            for marker, reason in need:
+                ok = any(_asserts_absent(x, marker, subj) for x in facts)
+                n += 1
+                rep.ob(RULE, rx, q, "%s only if %r not in %s" % (norm(c), marker, subj), ok, reason + "; excluded by the guard" if ok else
+                       reason + ", yet an XMLLiteral containing %r is written raw under parseType=\"Literal\": that part of the lexical form is gone after re-parsing" % marker, node=c)
+            if not need:
+                n += 1
+                rep.ob(RULE, rx, q, norm(c), True, "the reader reports processing instructions, comments and CDATA", node=c)
+    if not n:
+        raise AnalysisError("PrettyXMLSerializer.predicate: raw write of an XMLLiteral under parseType=Literal not found")
+
+
+def rule_aa_nodeid_is_ncname(repo: Repo, rep: Report) -> None:
+    """(aa) rdf:nodeID values are NCNames"""
+    from vlib.h_c03 import local_defs
+
+    RULE = "C03.aa-rdfxml-nodeid-is-an-ncname"
+    rep.rule(RULE,
+             "RDF/XML serializers: every value written as an rdf:nodeID - the `%s` after `nodeID=` in a format string, the second argument of writer.attribute(RDFVOC.nodeID, ...) - is the "
+             "result of a call to a function of the module that (itself or through the module function it delegates to) consults is_ncname(): rdf:nodeID must be an NCName, a blank node "
+             "identifier need not be one (BNode('1'), BNode('a b')); written as it is the RDF/XML reader rejects the document", floor=6)
+    rx = repo.mod("rdflib.plugins.serializers.rdfxml")
+
+    def sanitises(fn: ast.AST, depth: int = 3) -> bool:
+        for c in own_nodes(fn):
+            if isinstance(c, ast.Call):
+                name = c.func.attr if isinstance(c.func, ast.Attribute) else (c.func.id if isinstance(c.func, ast.Name) else None)
+                if name == "is_ncname":
+                    return True
+                if depth and name and isinstance(c.func, ast.Name) and rx.has(name) and isinstance(rx.defs[name], ast.FunctionDef) and sanitises(rx.defs[name], depth - 1):
+                    return True
+        return False
+
+    def resolve_callee(call: ast.Call, cls: str | None):
+        if isinstance(call.func, ast.Name) and rx.has(call.func.id):
+            return rx.defs[call.func.id]
+        if isinstance(call.func, ast.Attribute) and norm(call.func.value) == "self" and cls:
+            a = call.func.attr
+            for cand in (a, a.replace("_%s__" % cls, "__")):
+                if rx.has(cls + "." + cand):
+                    return rx.defs[cls + "." + cand]
+        return None
+
+    def value_ok(f, cls, e: ast.AST, depth: int = 3) -> bool:
+        if isinstance(e, ast.Call):
+            tgt = resolve_callee(e, cls)
+            return isinstance(tgt, (ast.FunctionDef, ast.AsyncFunctionDef)) and sanitises(tgt)
+        if isinstance(e, ast.Name) and depth:
+            ds = local_defs(f, e.id)
+            return bool(ds) and all(value_ok(f, cls, d, depth - 1) for d in ds)
+        return False
+
+    n = 0
+    for q, f in rx.functions():
+        cls = q.split(".")[0] if "." in q else None
+        sites = []
+        for c in own_nodes(f):
+            if isinstance(c, ast.BinOp) and isinstance(c.op, ast.Mod) and isinstance(c.left, ast.Constant) and isinstance(c.left.value, str) and "nodeID=" in c.left.value:
+                fmt = c.left.value
+                pos = fmt.index("nodeID=")
+                idx = len(re.findall(r"%[sdr]", fmt[:pos]))
+                if not re.match(r"nodeID=[\"']?%s", fmt[pos:]):
+                    continue  # the name of the attribute only, no value interpolated
+                args = c.right.elts if isinstance(c.right, ast.Tuple) else [c.right]
+                if idx < len(args):
+                    sites.append((c, args[idx]))
+            elif isinstance(c, ast.Call) and isinstance(c.func, ast.Attribute) and c.func.attr == "attribute" and len(c.args) == 2 and isinstance(c.args[0], ast.Attribute) and c.args[0].attr == "nodeID":
+                sites.append((c, c.args[1]))
+        for c, val in sites:
+            ok = value_ok(f, cls, val)
+            n += 1
+            rep.analysed("%s:%s" % (rx.rel, q))
+            rep.ob(RULE, rx, q, "rdf:nodeID value %s in %s" % (norm(val), norm(c)[:70]), ok, "made an NCName first" if ok else
+                   "the blank node identifier is written as the rdf:nodeID without passing a function that checks is_ncname(): BNode('1') gives rdf:nodeID=\"1\", which the RDF/XML reader rejects", node=c)
+    if n < 4:
+        raise AnalysisError("rdfxml serializers: rdf:nodeID write sites not found")
+
+
+_run_base4 = run
+
+
+def run(repo: Repo, rep: Report) -> None:  # noqa: F811
+    _run_base4(repo, rep)
+    rule_o_base_cut(repo, rep)
+    rule_p_jsonld_writer_falsy_terms(repo, rep)
+    rule_q_get_then_store(repo, rep)
+    rule_r_folded_cell_complete(repo, rep)
+    rule_s_type_key_only_for_iris(repo, rep)
+    rule_t_recursion_bounded(repo, rep)
+    rule_u_prefix_not_own_scheme(repo, rep)
+    rule_v_typed_node_element_name(repo, rep)
+    rule_w_no_prefix_after_header(repo, rep)
+    rule_x_registration_agrees_with_label(repo, rep)
+    rule_y_n3_keyword_not_first_in_brackets(repo, rep)
+    rule_z_parsetype_literal_agrees_with_reader(repo, rep)
+    rule_aa_nodeid_is_ncname(repo, rep)
 
 
 _run_before_borrow = run
